@@ -71,6 +71,7 @@ def check_C01(ctx):
 # ------------------------------------------------------------------- C02
 def check_C02(ctx):
     ctx.model_check("MC_Store.tla", q(ctx, "MC_Store_map.cfg", "MC_Store_map_thorough.cfg"))
+    ctx.model_check("FlushProto.tla", q(ctx, "MC_FlushProto.cfg", "MC_FlushProto_thorough.cfg"), workers=8, timeout=3000)
     seq_traces(ctx, "durable", q(ctx, 8, 16), q(ctx, 12, 60), q(ctx, 150, 400), {"C02"}, memevery=0)
     seq_traces(ctx, "durable", q(ctx, 2, 8), q(ctx, 4, 20), q(ctx, 100, 300), {"C02"}, big=True, memevery=0, seed_off=100)
     return ctx.finish("model_checking",
@@ -156,7 +157,7 @@ def check_C13(ctx):
 
 # ------------------------------------------------------------------- C14
 def check_C14(ctx):
-    ctx.model_check("MC_Store.tla", q(ctx, "MC_Store_map.cfg", "MC_Store_map_thorough.cfg"))
+    ctx.model_check("FlushProto.tla", "MC_FlushProto.cfg", workers=8)
     seq_traces(ctx, "durable", q(ctx, 8, 16), q(ctx, 12, 60), q(ctx, 150, 400), {"C14"}, memevery=0, seed_off=400)
     seq_traces(ctx, "copy", q(ctx, 3, 8), q(ctx, 8, 30), q(ctx, 100, 300), {"C14"}, memevery=0, seed_off=500)
     seq_traces(ctx, "durable", q(ctx, 1, 4), q(ctx, 4, 20), q(ctx, 100, 300), {"C14"}, big=True, memevery=0, seed_off=600)
@@ -339,6 +340,7 @@ def crash_traces(ctx, chunks, n, steps, accept, alltorn=0, cont=25, seed_off=0):
 
 def check_C03(ctx):
     ctx.model_check("RootScan.tla", q(ctx, "MC_RootScan.cfg", "MC_RootScan_thorough.cfg"))
+    ctx.model_check("FlushProto.tla", q(ctx, "MC_FlushProto.cfg", "MC_FlushProto_thorough.cfg"), workers=8, timeout=3000)
     crash_traces(ctx, q(ctx, 6, 16), q(ctx, 2, 8), q(ctx, 60, 100), {"C03"}, alltorn=q(ctx, 0, 128))
     return ctx.finish("model_checking",
                       "exhaustive: RootScan.tla (symbolic transcription of the backward root search) over every junk tail of <= 3 (quick) / 4 "
